@@ -102,3 +102,25 @@ Proof.
   split; [intros d H; vm_compute in H; discriminate H|].
   vm_compute. repeat split.
 Qed.
+
+(** The descriptor of a populated temporary file is closed exactly once, on every path of its
+    finalisation and for arbitrary responses - a close that reports a failure included (the
+    kernel has released the number, which may already belong to another thread's lookup handle):
+    no later call of the finalisation names it.  (Proofs/CloseOnce.v) *)
+From Kismet Require Import Proofs.CloseOnce.
+Theorem C01_finalisation_closes_its_descriptor_once : forall fd p (sync : bool),
+  wp (co_step fd) (finalize_tempfile fd p sync) (fun _ s' => s' = true) false.
+Proof. exact finalize_closes_once. Qed.
+
+Theorem C01_finalisation_closes_once_on_every_run : forall fd p (sync : bool) w o,
+  let '(_, _, _, tr) := run (finalize_tempfile fd p sync) w o in
+  mon_run (co_step fd) false tr = Some true.
+Proof. exact finalize_closes_once_run. Qed.
+
+Theorem C01_close_once_monitor_meaning : forall fd r,
+  co_step fd false (EvCall (CClose fd) r) = Some true /\
+  co_step fd true (EvCall (CClose fd) r) = None /\
+  co_step fd true (EvCall (CFsync fd) r) = None /\
+  co_step fd true (EvCall (CUnlink []) r) = Some true /\
+  co_step fd false (EvCall (CFchmod fd 292) r) = Some false.
+Proof. exact co_monitor_meaning. Qed.
